@@ -124,6 +124,7 @@ type Exec struct {
 	steps     int
 	depth     int
 	top       *frame
+	permN     int
 	funcsSeen map[*ssa.Function]bool
 	extUsed   map[string]int
 
